@@ -32,6 +32,7 @@ import (
 	exppeer "github.com/bitcoin-sv/block-headers-service/internal/transports/p2p/peer"
 	"github.com/bitcoin-sv/block-headers-service/internal/wire"
 	"github.com/bitcoin-sv/block-headers-service/service"
+	"github.com/bitcoin-sv/block-headers-service/transports/p2p"
 	"github.com/bitcoin-sv/block-headers-service/transports/p2p/p2psync"
 	"github.com/bitcoin-sv/block-headers-service/transports/p2p/peer"
 	"github.com/bitcoin-sv/block-headers-service/verifharness/lib"
@@ -303,12 +304,9 @@ func (r *rig) legacyPeerConfig() *peer.Config {
 				sm.NewPeer(p, nil)
 				return nil
 			},
-			OnInv: func(p *peer.Peer, msg *wire.MsgInv) {
-				if len(msg.InvList) > 0 {
-					sm.QueueInv(msg, p)
-				}
-			},
-			OnHeaders: func(p *peer.Peer, msg *wire.MsgHeaders) { sm.QueueHeaders(msg, p) },
+			// the REAL serverPeer.OnInv / OnHeaders of transports/p2p/serverpeer.go (overlay p2p_sync_verif.go), not a copy
+			OnInv:     p2p.VerifSyncOnInv(sm),
+			OnHeaders: p2p.VerifSyncOnHeaders(sm),
 			OnGetHeaders: func(p *peer.Peer, msg *wire.MsgGetHeaders) {
 				if !sm.IsCurrent() {
 					return
@@ -832,6 +830,28 @@ func (r *rig) stepAnnounce(i int, how string, k int) error {
 		} else {
 			how = "inv"
 			step += " (headers would not connect to what the peer is known to have: inv)"
+		}
+	}
+	if how == "invt" {
+		if r.s.Engine != "legacy" {
+			how = "inv"
+		} else {
+			// ONE inv that STARTS with transaction entries: tx, tx, then the new blocks oldest first with a tx entry after
+			// each of them (before, between and after the block entries). The last block entry is the announced block.
+			if n.isClosed() || to == from {
+				return nil
+			}
+			es := []invEntry{{Tx: true, Idx: n.spec.Path[to-1]}, {Tx: true, Idx: n.spec.Path[0]}}
+			items := []string{fmt.Sprintf("t%d", n.spec.Path[to-1]), fmt.Sprintf("t%d", n.spec.Path[0])}
+			for _, ix := range n.spec.Path[from:to] {
+				es = append(es, invEntry{Idx: ix}, invEntry{Tx: true, Idx: ix})
+				items = append(items, fmt.Sprint(ix), fmt.Sprintf("t%d", ix))
+			}
+			_ = n.sendInvEntries(es)
+			if err := r.record(step, fmt.Sprintf("sync inv CHOICE %d %s", i, strings.Join(items, " "))); err != nil {
+				return err
+			}
+			return r.pendingDone()
 		}
 	}
 	if how == "invx" {
